@@ -239,6 +239,14 @@ def check_wrapper_partial(so, si, how, stats):
             return
         resolved = [(q.name, q.kind) for q in sig.parameters.values()] != [(q.name, q.kind) for q in plain.parameters.values()]
         stats.cls('wrapper/positional/%s' % ('resolved' if resolved else 'plain'))
+        p2 = PSub(w, callee)
+        try:
+            sig2 = sigtools.signature(p2)
+        except ValueError:
+            sig2 = None
+        if sig2 is None or [(q.name, q.kind) for q in sig2.parameters.values()] != [(q.name, q.kind) for q in sig.parameters.values()]:
+            stats.fail('C19/wrapper/partial-subclass-differs', case, '%s: reported %s; for an instance of a subclass of functools.partial over the same: %s' % (
+                desc, sig, sig2 if sig2 is not None else 'ValueError'))
         if resolved:
             stats.nontriv((universe.spec_text(so), universe.spec_text(si), how))
             stats.sample('wrapper/positional', {'source': src, 'reported': str(sig)})
@@ -382,10 +390,76 @@ def check_sequence(spec, stats):
         stats.fail('C19/sequence/function-after-partial', case, 'signature of the function changed after its partial objects were inspected: %r vs %r' % (own, own1))
 
 
+class PSub(functools.partial):
+    """A subclass of functools.partial (a command object, say): a partial object like any other."""
+
+
+def check_chain_partial(si, nbound, stats):
+    """A two-level chain looked through a partial object: apply_first(c, first, *args, **kwargs) calls c(first, *args, **kwargs) with
+    c = relay(fn, *a, **k) -> fn(*a, **k); the partial object binds c, first and `nbound` more positionals (which spill into
+    *args): the values reach relay in the order explicit positionals, then *args.  Also: the same through a partial subclass."""
+    import sigtools
+    from sigtools import signatures
+    stats.case()
+    src = ('def callee(%s):\n    return 0\n\ndef other(only_other, /):\n    return 1\n\n'
+           'def relay(fn, *a, **k):\n    return fn(*a, **k)\n\n'
+           'def apply_first(c, first, *args, **kwargs):\n    return c(first, *args, **kwargs)\n' % universe.spec_text(si))
+    case = {'kind': 'chain', 'inner': list(map(list, si)), 'nbound': nbound, 'source': src}
+    g = realfn.load(src)
+    try:
+        extra = [g['other'], 0, 0][:nbound]        # spilled values: a callable first, so that a wrong order resolves to it
+        ref = refsig = None
+        for cls, label in ((functools.partial, 'functools.partial'), (PSub, 'a subclass of functools.partial')):
+            p = cls(g['apply_first'], g['relay'], g['callee'], *extra)
+            desc = '%s(apply_first, relay, callee%s) for\n%s' % (label, ''.join(', <v>' for _ in extra), src)
+            try:
+                sig = sigtools.signature(p)
+            except ValueError:
+                stats.cls('chain/raised')
+                continue
+            plain = signatures.signature(p)
+            resolved = [(q.name, q.kind) for q in sig.parameters.values()] != [(q.name, q.kind) for q in plain.parameters.values()]
+            stats.cls('chain/%s/%s' % ('subclass' if cls is PSub else 'partial', 'resolved' if resolved else 'plain'))
+            if cls is PSub:
+                if ref is not None and [(q.name, q.kind) for q in sig.parameters.values()] != ref:
+                    stats.fail('C19/chain/partial-subclass-differs', case, '%s: reported %s, for a plain functools.partial %s' % (desc, sig, refsig))
+                if sig.sources.get('+depths', {}).get(p) != 0:
+                    stats.fail('C19/chain/depth', case, "%s: sources['+depths'][partial] = %r" % (desc, sig.sources.get('+depths', {}).get(p)))
+                continue
+            ref, refsig = [(q.name, q.kind) for q in sig.parameters.values()], sig
+            if not any(real_accepts(p, m, K) for m, K in shapes()):
+                # the bound values cannot be passed on at all: every call of the partial object raises, there is nothing to honour
+                stats.cls('chain/uncallable')
+                continue
+            if resolved:
+                stats.nontriv(('chain', universe.spec_text(si), nbound))
+                stats.sample('chain', {'source': src, 'bound': nbound, 'reported': str(sig)})
+            rb = cpbind.binder(universe.sig_view(sig))
+            kp = cpbind.kwpassable(universe.sig_view(sig))
+            alln = set(q.name for q in si) | {'c', 'first', 'fn', 'only_other'}
+            for m, K in shapes():
+                if not all((k in kp) or (k not in alln) for k in K):
+                    continue
+                sa, ra = rb.accepts(m, K), real_accepts(p, m, K)
+                if sa and not ra and resolved:
+                    stats.fail('C19/chain/unsound', dict(case, shape=[m, list(K)]), '%s reports %s which accepts (npos=%d, kw=%s) but calling raises TypeError' % (desc, sig, m, list(K)))
+                    break
+                if ra and not sa and resolved:
+                    stats.fail('C19/chain/inexact', dict(case, shape=[m, list(K)]), '%s reports %s which rejects (npos=%d, kw=%s) but the call works' % (desc, sig, m, list(K)))
+                    break
+    finally:
+        realfn.unload(g)
+
+
 def shard_wrappers(arg):
     pairs, = arg
     st = Stats()
+    done = set()
     for so, si in pairs:
+        if si not in done:
+            done.add(si)
+            for nb in (0, 1, 2):
+                check_chain_partial(si, nb, st)
         check_sequence(si, st)
         check_wrapper_variants(so, si, st)
         for how in ('positional', 'keyword'):
@@ -453,6 +527,9 @@ def run(ctx):
 def replay(case, stats):
     if case.get('kind') == 'sequence':
         check_sequence(tuple(Par(*p) for p in case['spec']), stats)
+        return
+    if case.get('kind') == 'chain':
+        check_chain_partial(tuple(Par(*p) for p in case['inner']), case['nbound'], stats)
         return
     if case.get('kind') == 'wrapper-variants':
         check_wrapper_variants(tuple(Par(*p) for p in case['outer']), tuple(Par(*p) for p in case['inner']), stats)
